@@ -80,6 +80,14 @@ func pipeOpts(mode string) gen.Opts {
 		return gen.Opts{MaxObjs: 2, MaxEdges: 1, Sequence: true, SpecialOnly: "sequence", CrossEdges: true}
 	case "near":
 		return gen.Opts{MaxObjs: 4, MaxEdges: 3, Containers: true, Near: true, SpecialOnly: "near", Sizes: true, LabelPos: true}
+	case "render3": // render2 plus connections with a border radius and labels on both arrowheads
+		o := pipeOpts("render2")
+		o.EdgeExtras = true
+		return o
+	case "render3-plain":
+		o := pipeOpts("render3")
+		o.Tricky = false
+		return o
 	case "render2-plain":
 		o := pipeOpts("render2")
 		o.Tricky = false
